@@ -84,6 +84,22 @@ CASES = [
        files={'r/a/stats.l': 'Tot(k) += v :- k == 1, v in [1, 2];\nTot(k) += 10 :- k == 1;\nSa(k, t) :- Tot(k) = t;\n',
               'r/b/stats.l': 'Tot(k) += v :- k == 1, v in [100];\nTot(k) += 1000 :- k == 1;\nSb(k, t) :- Tot(k) = t;\n'},
        main='import a.stats.Sa;\nimport b.stats.Sb;\nQ(a, b) :- Sa(1, a), Sb(1, b);\n', roots='r', expect={'Q': [(13, 1100)]}),
+  # two imports of one predicate name from different modules, told apart by an alias
+  dict(name='same_predicate_name_alias',
+       files={'r/shop/data.l': 'Item(1);\nItem(2);\n', 'r/geo/data.l': 'Item(10);\n'},
+       main='import shop.data.Item;\nimport geo.data.Item as Place;\nQ(x) :- Item(x) | Place(x);\nP2(x) :- Place(x);\n', roots='r',
+       expect={'Q': [(1,), (2,), (10,)], 'P2': [(10,)]}),
+  dict(name='same_predicate_name_two_aliases',
+       files={'r/shop/data.l': 'Item(1);\n', 'r/geo/data.l': 'Item(10);\n'},
+       main='import shop.data.Item as A;\nimport geo.data.Item as B;\nQ(x, y) :- A(x), B(y);\n', roots='r',
+       expect={'Q': [(1, 10)]}),
+  # a library module (not the main file) defining a predicate under the name / alias it imports is rejected as well
+  dict(name='module_redefines_import',
+       files={'r/base/v.l': 'Value(3);\n', 'r/mid/m.l': 'import base.v.Value;\nValue(10);\nMid(x) :- Value(x);\n'},
+       main='import mid.m.Mid;\nQ(x) :- Mid(x);\n', roots='r', error='import'),
+  dict(name='module_redefines_import_alias',
+       files={'r/base/v.l': 'Value(3);\n', 'r/mid/m.l': 'import base.v.Value as V;\nV(10);\nMid(x) :- V(x);\n'},
+       main='import mid.m.Mid;\nQ(x) :- Mid(x);\n', roots='r', error='import'),
   dict(name='missing_file', files={}, main='import no.such.P;\nQ(x) :- P(x);\n', roots='r', error='not found'),
 ]
 
